@@ -78,8 +78,10 @@ pub fn to_core(e: &ExtStructure) -> Extensions {
             .iter()
             .map(|o| match o {
                 ExtObject::Mpls(ms) => Extension::Mpls(trippy_core::MplsLabelStack {
+                    // the stack ends at the first member with the S bit, or with the object
                     members: ms
                         .iter()
+                        .take(ms.iter().position(|m| m.bos == 1).map_or(ms.len(), |i| i + 1))
                         .map(|m| trippy_core::MplsLabelStackMember { label: m.label, exp: m.exp, bos: m.bos, ttl: m.ttl })
                         .collect(),
                 }),
